@@ -30,8 +30,9 @@ FILTERS = ("is_filtered_out", "is_filtered_out_wrt_non_inherited_categories", "t
 def run(ctx):
     ctx.clause = ("no counter that decides the INCOMPATIBLE bit (corpus_diff::has_incompatible_changes) is computed under "
                   "the report-mode dependent filter diff::is_filtered_out()")
-    ctx.rules = ["R-MODEATOM", "R-SIMILARLEAF"]
+    ctx.rules = ["R-MODEATOM", "R-SIMILARLEAF", "R-SAMETYPELOCAL"]
     check_similarleaf(ctx)
+    check_sametypelocal(ctx)
     P = ctx.program(UNITS)
     inc = P.fn1("abigail::comparison::corpus_diff::has_incompatible_changes")
     ctx.analysed(inc)
@@ -90,6 +91,131 @@ def run(ctx):
                "over different counters; that they agree is runtime behaviour of the leaf-node marking and is not decided; "
                "the impacted-interfaces clause is not decided either")
 
+
+
+def check_sametypelocal(ctx, rule="R-SAMETYPELOCAL"):
+    """R-SAMETYPELOCAL: leaf mode reports a class only if the comparison that found it different says the difference is
+    *local* (change_kind LOCAL_TYPE_CHANGE_KIND); data-member diffs are not leaf nodes of their own.  Where an
+    ir::equals(l, r, change_kind* k) overload finds two *data members* (var_decl) different (`**d0 != **d1`) and classifies the
+    difference through their *types* ((*d0)->get_type(), (*d1)->get_type()), the two types may well be equal - the
+    declarations then differ by offset, name or bit position - and that can only be a local change.  The branch is
+    interpreted (helpers included) in the world "the two types are equal" (hence of similar structure): every path must
+    OR the local kind into *k.  Otherwise a re-arrangement of members is a change of nothing for the leaf report while the
+    default report shows it."""
+    from rules.world import World, truth, ANY
+    P = ctx.program(["src/abg-ir.cc"])
+    eqs = [f for f in P.all_funcs() if f.q == "abigail::ir::equals" and not f.dep and f.cfg() is not None and
+           any("change_kind" in ((f.unit.type(p["t"]) or {}).get("c", "")) for p in f.params() if p)]
+    if len(eqs) < 10:
+        raise AnalysisBroken("anchor vanished: ir::equals(l, r, change_kind*) overloads (%d found)" % len(eqs))
+    local = None
+    for u in P.units:
+        for d in u.decls.values() if hasattr(u, "decls") else []:
+            pass
+    n = 0
+
+    def mk_atom(g):
+        def atom(e):
+            k = e["k"]
+            if k == "CallExpr" and (g.decl(e) or {}).get("n") == "types_have_similar_structure":
+                return [True]
+            if k in ("BinaryOperator", "CXXOperatorCallExpr") and e.get("op") in ("==", "!="):
+                ops = call_args(e) if k == "CXXOperatorCallExpr" else e["c"]
+                def typeish(o):
+                    if any(y["k"] == "CXXMemberCallExpr" and (g.decl(y) or {}).get("n") == "get_type" for y in walk(o)):
+                        return True
+                    o0 = strip_casts(o)
+                    t = g.type(o0) if o0 is not None else None
+                    return o0 is not None and o0["k"] == "DeclRefExpr" and o0.get("d") in g.r["params"] and "type_base" in (t or {}).get("c", "")
+                if len(ops) == 2 and all(typeish(o) for o in ops):
+                    return [e["op"] == "=="]
+            if k == "DeclRefExpr" and (g.decl(e) or {}).get("k") == "ParmVar" and "change_kind" in ((g.type(e) or {}).get("c", "")):
+                return [True]
+            if k == "CallExpr":
+                h = P.funcs.get((g.decl(e) or {}).get("u"))
+                if h is not None and not h.dep and h.cfg() is not None and "change_kind" in ((h.ret_type() or {}).get("c", "")) \
+                        and h.u != g.u:
+                    return sorted(World(h, mk_atom(h)).returns(), key=str)
+            return None
+        return atom
+
+    def ored(f, W, s, acc):
+        """list of sets of values OR-ed into *k along the paths of statement s"""
+        if s is None:
+            return [acc]
+        k = s["k"]
+        if k == "CompoundStmt":
+            accs = [acc]
+            for c in s.get("c", []):
+                accs = [a2 for a in accs for a2 in ored(f, W, c, a)]
+            return accs
+        if k == "IfStmt":
+            v = truth(W.ev(s["c"][0])) if s["c"][0] is not None else frozenset([True, False])
+            out = []
+            if True in v:
+                out += ored(f, W, s["c"][1], acc)
+            if False in v:
+                out += ored(f, W, s["c"][2] if len(s["c"]) > 2 else None, acc)
+            return out
+        if k in ("CompoundAssignOperator", "CXXOperatorCallExpr") and s.get("op") == "|=":
+            ops = call_args(s) if k == "CXXOperatorCallExpr" else s["c"]
+            vals = W.ev(ops[-1])
+            return [acc | {v} for v in vals]
+        if k in ("ExprWithCleanups", "ParenExpr") and s.get("c"):
+            return ored(f, W, s["c"][0], acc)
+        return [acc]
+    enumv = {}
+    for f in eqs:
+        for x in f.nodes():
+            if x["k"] == "DeclRefExpr" and x.get("v") is not None and (f.decl(x) or {}).get("n") in ("LOCAL_TYPE_CHANGE_KIND", "SUBTYPE_CHANGE_KIND",
+                                                                                                  "LOCAL_NON_TYPE_CHANGE_KIND", "LOCAL_CHANGE_MASK"):
+                enumv[(f.decl(x) or {}).get("n")] = x["v"]
+    if "LOCAL_TYPE_CHANGE_KIND" not in enumv:
+        raise AnalysisBroken("anchor vanished: enumerator LOCAL_TYPE_CHANGE_KIND")
+    LOCALS = {v for nme, v in enumv.items() if nme.startswith("LOCAL")}
+    for f in sorted(eqs, key=lambda x: x.l0):
+        W = World(f, mk_atom(f))
+        for g in f.nodes():
+            if g["k"] != "IfStmt" or g["c"][0] is None or g["c"][1] is None:
+                continue
+            c = strip_casts(g["c"][0])
+            if c is None or c["k"] not in ("CXXOperatorCallExpr", "BinaryOperator") or c.get("op") != "!=":
+                continue
+            ops = call_args(c) if c["k"] == "CXXOperatorCallExpr" else c["c"]
+            if len(ops) != 2:
+                continue
+            # the guard compares two declarations, the branch classifies through their get_type()
+            roots = []
+            for o in ops:
+                ds = {y.get("d") for y in walk(o) if y["k"] == "DeclRefExpr" and (f.decl(y) or {}).get("k") in ("Var", "ParmVar")}
+                roots.append(ds)
+            if any(any(y["k"] == "CXXMemberCallExpr" and (f.decl(y) or {}).get("n") in ("get_type", "get_underlying_type", "get_pointed_to_type",
+                                                                                         "get_return_type", "get_base_class", "get_element_type")
+                       for y in walk(o)) for o in ops):
+                continue                          # the guard already compares types
+            # data members only: var_decl carries attributes of its own (offset, name, bit position) that can differ while
+            # the type is the same; a parameter compared in lock-step has none (index and type decide)
+            if not all("var_decl" in ((f.type(strip_casts(o)) or {}).get("c", "")) for o in ops):
+                continue
+            body = g["c"][1]
+            gt = [y for y in walk(body) if y["k"] == "CXXMemberCallExpr" and (f.decl(y) or {}).get("n") == "get_type"]
+            used = [{z.get("d") for z in walk(y) if z["k"] == "DeclRefExpr"} for y in gt]
+            if not (roots[0] and roots[1] and any(u & roots[0] for u in used) and any(u & roots[1] for u in used)):
+                continue
+            if not any(y["k"] in ("CompoundAssignOperator", "CXXOperatorCallExpr") and y.get("op") == "|=" for y in walk(body)):
+                continue
+            n += 1
+            ctx.analysed(f)
+            paths = ored(f, W, body, frozenset())
+            bad = [p for p in paths if not (p & LOCALS) and ANY not in p]
+            sig = ", ".join((f.unit.type(p["t"]) or {}).get("s", "?") for p in f.params()[:1])
+            ctx.ob(rule, "equals(%s): two declarations that differ while their types are equal are a local change" % sig.replace("const ", "").replace(" &", ""),
+                   not bad, f.loc(g),
+                   "in the world `the two types are equal` every path of the branch under `%s` ORs a local kind into *k" % expr_str(f, c)[:40] if not bad else
+                   "under `%s`, with equal types, a path ORs only %s into *k: members that differ by offset, name or bit position "
+                   "are then a sub-type change of an unchanged type - leaf mode reports nothing where the default mode reports the "
+                   "class" % (expr_str(f, c)[:40], sorted(next(iter(bad))) or "nothing"))
+    ctx.floor(rule, "declaration differences classified through the declarations' types", n, 1)
 
 
 def check_similarleaf(ctx):
